@@ -193,7 +193,17 @@ def mk_engine(repo, grammars):
         a_ = a.v if isinstance(a, G.EnumVal) else a; b_ = b.v if isinstance(b, G.EnumVal) else b
         if isinstance(a_, SDec) or isinstance(b_, SDec):
             d, o = (a_, b_) if isinstance(a_, SDec) else (b_, a_)
-            if not isinstance(op, (ast.Eq, ast.NotEq)): raise Unsupported("Decimal ordering")
+            if not isinstance(op, (ast.Eq, ast.NotEq)):
+                # ordering of an integer o against o * 10**e (the same integer term): o < o*10**e exactly when (e > 0 and o > 0) or (e < 0 and o < 0); equal exactly when e == 0 or o == 0
+                same = (o is d.m) or (is_sym(o) and is_sym(d.m) and to_int(o).eq(to_int(d.m))) or (isinstance(o, int) and not isinstance(o, bool) and isinstance(d.m, int) and o == d.m)
+                if not same or not isinstance(op, (ast.Lt, ast.LtE, ast.Gt, ast.GtE)): raise Unsupported("Decimal ordering")
+                oi, ei = to_int(o), to_int(d.e)
+                lt = z3.Or(z3.And(ei > 0, oi > 0), z3.And(ei < 0, oi < 0)); eq = z3.Or(ei == 0, oi == 0)
+                o_left = d is b_
+                c = {ast.Lt: lt if o_left else z3.Not(z3.Or(lt, eq)), ast.LtE: z3.Or(lt, eq) if o_left else z3.Not(lt),
+                     ast.Gt: z3.Not(z3.Or(lt, eq)) if o_left else lt, ast.GtE: z3.Not(lt) if o_left else z3.Or(lt, eq)}[type(op)]
+                c = z3.simplify(c)
+                return True if z3.is_true(c) else False if z3.is_false(c) else SBool(c)
             # o == m * 10**e for the same integer term m: exactly when e == 0 or m == 0  (10**e != 1 for e != 0)
             same = (o is d.m) or (is_sym(o) and is_sym(d.m) and to_int(o).eq(to_int(d.m))) or (isinstance(o, int) and isinstance(d.m, int) and o == d.m)
             if not same:
